@@ -156,11 +156,49 @@ pub fn cmd_record(args: &HashMap<String, String>) -> i32 {
     let btree_cols: Vec<usize> = (0..u.cols.len()).filter(|c| u.cols[*c].is_btree()).collect();
     // an open iterator borrows the handle; always dropped before the handle
     let mut iter: Option<(usize, parity_db::BTreeIterator<'static>)> = None;
-    while i < steps && problems.is_empty() {
+    // scripted prefix (--growth_crash, column 1 with colliding keys): fill the shared index page until
+    // the index grows, remove a key that still lives in the OLD generation, run the reindex to its end
+    // (the drop of the old generation is logged), write again, flush, and crash right after the old
+    // index file was unlinked by the enact of the drop record
+    enum Forced {
+        Tx(J, Vec<(u8, Operation<Vec<u8>, Vec<u8>>)>),
+        Step(u32),
+        CrashAt(&'static str),
+    }
+    let mut script: std::collections::VecDeque<Forced> = Default::default();
+    if args.contains_key("growth_crash") && u.cols[0].collide && !u.cols[0].is_rc() {
+        let set = |k: usize, v: i64| (json!({"c": 1, "k": k, "t": "set", "v": v}), (0u8, Operation::Set(u.key(0, k).clone(), u.val(0, k, v))));
+        let del = |k: usize| (json!({"c": 1, "k": k, "t": "del", "v": 0}), (0u8, Operation::Dereference(u.key(0, k).clone())));
+        let mut k = 1;
+        while k <= 72.min(u.nkeys) {
+            let group: Vec<_> = (k..(k + 4).min(u.nkeys + 1)).map(|x| set(x, 1)).collect();
+            script.push_back(Forced::Tx(J::Array(group.iter().map(|g| g.0.clone()).collect()), group.into_iter().map(|g| g.1).collect()));
+            script.push_back(Forced::Step(40)); // process
+            k += 4;
+        }
+        script.push_back(Forced::Step(55)); // flush
+        for _ in 0..24 {
+            script.push_back(Forced::Step(70)); // enact
+        }
+        script.push_back(Forced::Step(80)); // clean
+        let (j, o) = del(3);
+        script.push_back(Forced::Tx(J::Array(vec![j]), vec![o]));
+        script.push_back(Forced::Step(40));
+        for _ in 0..12 {
+            script.push_back(Forced::Step(88)); // reindex batch
+        }
+        let (j, o) = set(3, 2);
+        script.push_back(Forced::Tx(J::Array(vec![j]), vec![o]));
+        script.push_back(Forced::Step(40));
+        script.push_back(Forced::Step(55));
+        script.push_back(Forced::CrashAt("Sys:unlink:index"));
+    }
+    while (i < steps || !script.is_empty()) && problems.is_empty() {
         i += 1;
+        let forced = script.pop_front();
         // cursor activity (btree columns): open / seek / step in both directions, interleaved
         // with everything else while the iterator stays open
-        if cursor_pct > 0 && !btree_cols.is_empty() && rng.gen::<u32>() % 100 < cursor_pct {
+        if forced.is_none() && cursor_pct > 0 && !btree_cols.is_empty() && rng.gen::<u32>() % 100 < cursor_pct {
             let d = db.as_ref().unwrap();
             let res: Result<(), String> = (|| {
                 if iter.is_none() {
@@ -209,7 +247,20 @@ pub fn cmd_record(args: &HashMap<String, String>) -> i32 {
             }
             continue
         }
-        let r = rng.gen::<u32>() % 100;
+        let mut forced_tx = None;
+        let mut forced_aim: Option<&'static str> = None;
+        let r = match forced {
+            Some(Forced::Tx(j, o)) => {
+                forced_tx = Some((j, o));
+                0
+            },
+            Some(Forced::Step(r)) => r,
+            Some(Forced::CrashAt(a)) => {
+                forced_aim = Some(a);
+                95
+            },
+            None => rng.gen::<u32>() % 100,
+        };
         if r >= 90 && iter.is_some() {
             // restart or crash: the iterator goes first
             iter = None;
@@ -218,14 +269,17 @@ pub fn cmd_record(args: &HashMap<String, String>) -> i32 {
         let res: Result<(), String> = (|| {
             let d = db.as_ref().unwrap();
             if r < 35 {
-                let (jtx, ops) = rand_tx(&mut rng, &u, 4, 6, None);
+                let (jtx, ops) = match forced_tx.take() {
+                    Some(t) => t,
+                    None => rand_tx(&mut rng, &u, 4, 6, None),
+                };
                 commit(d, &rec, jtx, ops)?;
             } else if r < 52 {
                 catch(|| d.process_commits()).map_err(|p| format!("panic: {p}"))?.map_err(|e| format!("process_commits: {e}"))?;
             } else if r < 62 {
                 catch(|| d.flush_logs()).map_err(|p| format!("panic: {p}"))?.map_err(|e| format!("flush_logs: {e}"))?;
             } else if r < 78 {
-                catch(|| d.verif_enact_one()).map_err(|p| format!("panic: {p}"))?.map_err(|e| format!("enact: {e}"))?;
+                catch(|| enact_one_guarded(d)).map_err(|p| format!("panic: {p}"))?.map_err(|e| format!("enact: {e}"))?;
             } else if r < 86 {
                 catch(|| d.clean_logs()).map_err(|p| format!("panic: {p}"))?.map_err(|e| format!("clean_logs: {e}"))?;
                 if d.verif_pipeline_sizes().0 == 0 {
@@ -246,22 +300,35 @@ pub fn cmd_record(args: &HashMap<String, String>) -> i32 {
                 counts_events(&nd, &u, &rec);
                 dump_events(&nd, &u, &rec);
                 db = Some(nd);
-            } else if r < 95 + crash_pct.min(5) {
+            } else if r < 95 + crash_pct.min(5) || forced_aim.is_some() {
                 // crash: at this boundary, or at the j-th hook event of a pipeline step
                 ncrash += 1;
                 gen += 1;
                 let img = root.join(format!("img{gen}"));
-                let inside = rng.gen::<u32>() % 3 != 0;
+                let inside = forced_aim.is_some() || rng.gen::<u32>() % 3 != 0;
                 if inside {
-                    let j = rng.gen::<usize>() % 12;
+                    // the j-th event of the burst, or (aimed) the instant right after the old index
+                    // file of a finished growth was unlinked / after a log file was truncated
+                    let aimed = match (forced_aim, rng.gen::<u32>() % 4) {
+                        (Some(a), _) => Some(a),
+                        (None, 0) => Some("Sys:unlink:index"),
+                        (None, 1) => Some("Sys:ftruncate"),
+                        _ => None,
+                    };
+                    let j = rng.gen::<usize>() % 40;
                     let cut: Arc<Mutex<Option<usize>>> = Arc::new(Mutex::new(None));
                     let cut2 = cut.clone();
                     let n = Arc::new(AtomicUsize::new(0));
                     let src = dir.clone();
                     let img2 = img.clone();
-                    rec.set_callback(Some(Arc::new(move |_n: &str, _a: &[u64], pos: usize| {
-                        if n.fetch_add(1, Ordering::SeqCst) == j {
-                            if copy_dir(&src, &img2).is_ok() {
+                    rec.set_callback(Some(Arc::new(move |name: &str, _a: &[u64], pos: usize| {
+                        let k = n.fetch_add(1, Ordering::SeqCst);
+                        let hit = match aimed {
+                            Some(prefix) => name.starts_with(prefix),
+                            None => k == j,
+                        };
+                        if hit && cut2.lock().unwrap().is_none() {
+                            if crate::sys::quiet(|| copy_dir(&src, &img2)).is_ok() {
                                 *cut2.lock().unwrap() = Some(pos);
                             }
                         }
@@ -269,10 +336,22 @@ pub fn cmd_record(args: &HashMap<String, String>) -> i32 {
                     // a burst of pipeline work during which the process "dies"
                     let _ = catch(|| {
                         let _ = d.process_commits();
+                        if aimed.is_some() {
+                            let _ = d.process_reindex();
+                            let _ = d.process_commits();
+                        }
                         let _ = d.flush_logs();
-                        let _ = d.verif_enact_one();
-                        let _ = d.verif_enact_one();
+                        let _ = enact_one_guarded(d);
+                        let _ = enact_one_guarded(d);
                         let _ = d.clean_logs();
+                        if aimed.is_some() {
+                            // (clean in between: an enact call waits for a cleanup when too many logs are dirty)
+                            for _ in 0..3 {
+                                let _ = enact_one_guarded(d);
+                                let _ = enact_one_guarded(d);
+                                let _ = d.clean_logs();
+                            }
+                        }
                     });
                     rec.set_callback(None);
                     let c = *cut.lock().unwrap();
